@@ -250,6 +250,10 @@ let run (op : string) (a : string list) : string list =
       [verdict (check_hd_text (n_of_string pn) (n_of_string st) (n_of_string sz) (bytes_of_hex sg) (n_of_string sty)
                   (bytes_of_hex text))]
   | "file_text", [p; text] -> [verdict (check_file_text (nlist_of_string p) (nlist_of_string text))]
+  (* C13 / C14 *)
+  | "safety", [len; cls; alloc] ->
+      let c = (match cls with "ret" -> CRet | "panic" -> CPanic | "exit" -> CFatal | _ -> CFatal) in
+      [verdict (cls <> "timeout" && check_safety (n_of_string len) c (n_of_string alloc))]
   | _ -> ["skip"; "unknown op " ^ op]
 
 let () =
